@@ -275,7 +275,15 @@ impl BlockWrite for RollingWriter {
                     (next_file_number, file)
                 } else {
                     let next_file_number = self.directory.files.inc(&self.file_number);
-                    let file = create_file(&self.directory.dir, &next_file_number)?;
+                    let file = match create_file(&self.directory.dir, &next_file_number) {
+                        Ok(file) => file,
+                        Err(io_err) => {
+                            // A file we failed to create is not ours: if it stayed tracked, the
+                            // next write would open (and GC would remove) whatever bears its name.
+                            self.directory.files.untrack(&next_file_number);
+                            return Err(io_err);
+                        }
+                    };
                     (next_file_number, file)
                 };
 
